@@ -5,6 +5,14 @@ a cancel issued right after the complete answer was written races with its deliv
 def compare(op, impl, model, rep):
     if isinstance(model, dict) and "model_error" in model:
         return "model error: " + str(model["model_error"])
+    if op.get("c") == "calls.closeLive":
+        # Close() on a live child: the model starts close()'s own Cmd.Wait together with the kill (worst case: one goroutine
+        # stuck per client); in the implementation the watcher sometimes finishes before close() reaches its Wait
+        il, ml = dict(impl.get("ledger", {})), dict(model.get("ledger", {}))
+        si, sm = il.pop("stuck", 0), ml.pop("stuck", 0)
+        if impl.get("ok") != model.get("ok") or il != ml or not (0 <= si <= sm):
+            return "Close on a live child: implementation %r, model (stuck = upper bound) %r" % (impl, model)
+        return None
     if "calls" not in model:
         return None if impl == model else "outcomes differ: implementation %r, model %r" % (impl, model)
     ic, mc = impl.get("calls", []), model.get("calls", [])
